@@ -179,6 +179,7 @@ func main() {
 	var sites []site
 	for _, n := range names {
 		sites = append(sites, scan(fset, n, funcs[n].decl.Body)...)
+		sites = append(sites, nilResults(fset, n, funcs[n].decl)...)
 	}
 	sort.Slice(sites, func(i, j int) bool {
 		a, b := sites[i], sites[j]
@@ -483,4 +484,137 @@ func isConstLike(n string) bool { return false }
 
 func coqStr(s string) string {
 	return `"` + strings.ReplaceAll(s, `"`, `""`) + `"`
+}
+
+// "nilresult": a function whose first result is a pointer and whose last result is an error can hand its caller
+// (nil, nil) -- the caller's method call on the result then dereferences nil.  Recorded: a literal
+// `return nil, ..., nil`, and `return x, ..., nil` where x is a pointer variable declared without a value
+// (`var x *T`) that is not assigned on every path to that return (definite-assignment analysis over
+// if / else / switch / loops; an `if x, err = f(); ...` init counts as an assignment).
+func nilResults(fset *token.FileSet, fn string, fd *ast.FuncDecl) []site {
+	rs := fd.Type.Results
+	if rs == nil || len(rs.List) < 2 {
+		return nil
+	}
+	if _, ok := rs.List[0].Type.(*ast.StarExpr); !ok {
+		return nil
+	}
+	if id, ok := rs.List[len(rs.List)-1].Type.(*ast.Ident); !ok || id.Name != "error" {
+		return nil
+	}
+	var res []site
+	nilable := map[string]bool{}
+	ast.Inspect(fd.Body, func(n ast.Node) bool {
+		if vs, ok := n.(*ast.ValueSpec); ok && len(vs.Values) == 0 && vs.Type != nil {
+			if _, ok := vs.Type.(*ast.StarExpr); ok {
+				for _, id := range vs.Names {
+					nilable[id.Name] = true
+				}
+			}
+		}
+		return true
+	})
+	isNil := func(e ast.Expr) bool { id, ok := e.(*ast.Ident); return ok && id.Name == "nil" }
+	assigns := func(n ast.Node, v string) bool {
+		found := false
+		if n == nil {
+			return false
+		}
+		ast.Inspect(n, func(x ast.Node) bool {
+			if as, ok := x.(*ast.AssignStmt); ok {
+				for _, l := range as.Lhs {
+					if id, ok := l.(*ast.Ident); ok && id.Name == v {
+						found = true
+					}
+				}
+			}
+			return !found
+		})
+		return found
+	}
+	// da(stmts, assigned) -> may the end of the list be reached with v unassigned / assigned
+	var da func(l []ast.Stmt, v string, un, as bool) (bool, bool)
+	var one func(s ast.Stmt, v string, un, as bool) (bool, bool)
+	one = func(s ast.Stmt, v string, un, as bool) (bool, bool) {
+		switch x := s.(type) {
+		case nil:
+			return un, as
+		case *ast.BlockStmt:
+			return da(x.List, v, un, as)
+		case *ast.ReturnStmt:
+			if len(x.Results) >= 2 && isNil(x.Results[len(x.Results)-1]) {
+				if id, ok := x.Results[0].(*ast.Ident); ok && id.Name == v && un {
+					res = append(res, site{fn, "nilresult", text(fset, x) + " (" + v + " may be nil)"})
+				}
+			}
+			return false, false
+		case *ast.IfStmt:
+			if x.Init != nil && assigns(x.Init, v) {
+				un, as = false, un || as
+			}
+			u1, a1 := da(x.Body.List, v, un, as)
+			u2, a2 := un, as
+			if x.Else != nil {
+				u2, a2 = one(x.Else, v, un, as)
+			}
+			return u1 || u2, a1 || a2
+		case *ast.ForStmt:
+			u1, a1 := da(x.Body.List, v, un, as)
+			return un || u1, as || a1
+		case *ast.RangeStmt:
+			u1, a1 := da(x.Body.List, v, un, as)
+			return un || u1, as || a1
+		case *ast.SwitchStmt, *ast.TypeSwitchStmt, *ast.SelectStmt:
+			var body *ast.BlockStmt
+			switch y := x.(type) {
+			case *ast.SwitchStmt:
+				body = y.Body
+			case *ast.TypeSwitchStmt:
+				body = y.Body
+			case *ast.SelectStmt:
+				body = y.Body
+			}
+			ru, ra := un, as // no clause taken
+			for _, c := range body.List {
+				var cl []ast.Stmt
+				if cc, ok := c.(*ast.CaseClause); ok {
+					cl = cc.Body
+				} else if cc, ok := c.(*ast.CommClause); ok {
+					cl = cc.Body
+				}
+				u1, a1 := da(cl, v, un, as)
+				ru, ra = ru || u1, ra || a1
+			}
+			return ru, ra
+		case *ast.LabeledStmt:
+			return one(x.Stmt, v, un, as)
+		default:
+			if assigns(s, v) {
+				return false, un || as
+			}
+			return un, as
+		}
+	}
+	da = func(l []ast.Stmt, v string, un, as bool) (bool, bool) {
+		for _, s := range l {
+			if !un && !as {
+				break
+			}
+			un, as = one(s, v, un, as)
+		}
+		return un, as
+	}
+	for v := range nilable {
+		da(fd.Body.List, v, true, false)
+	}
+	ast.Inspect(fd.Body, func(n ast.Node) bool {
+		if _, ok := n.(*ast.FuncLit); ok {
+			return false
+		}
+		if r, ok := n.(*ast.ReturnStmt); ok && len(r.Results) >= 2 && isNil(r.Results[0]) && isNil(r.Results[len(r.Results)-1]) {
+			res = append(res, site{fn, "nilresult", text(fset, r)})
+		}
+		return true
+	})
+	return res
 }
